@@ -288,7 +288,13 @@ class Equals(ParametrizedDependentType):
     keyable_type = True
 
     def default_bound(self, *parameters):
-        return type(parameters[0])
+        types = tuple(dict.fromkeys(type(p) for p in parameters))
+        if len(types) == 1:
+            return types[0]
+        else:
+            from .types import Union
+
+            return Union[types]
 
     def check(self, value):
         return value in self.parameters
